@@ -1,4 +1,3 @@
-use quote::{format_ident, quote};
 use syn::{spanned::Spanned, Data, DeriveInput, Field, Fields, Ident, Meta};
 
 use super::{
